@@ -666,4 +666,68 @@ theorem delivered_means_content_was_sent (cfg : Cfg) (hl : cfg.lmtp = false) (s 
     have r4 : RelaySession.readN 1 [RelaySession.Ans.code ce] = some ([ce], []) := readN_codes [ce] _
     simp [r4, isError_agree, hcee, hne]
 
+section mxcache
+open Slimta.Mx
+
+/-! ## The expiring cache of `MxRecord` -/
+
+/-- **A fresh cache entry is served without asking the resolver**, and is left as it is. -/
+theorem cache_fresh_no_query (c : Cache) (now : Nat) (q : Query) (h : expired c now = false) :
+    (cacheGet c now q).1 = c ∧ (cacheGet c now q).2.1 = false := by
+  simp [cacheGet, h]
+
+/-- **An expired entry is never served**: once the clock has reached the expiration (or nothing worth keeping was cached), `get`
+    asks the resolver, and what it gives is what a brand-new `MxRecord` would give — the old records play no part. -/
+theorem cache_expired_asks_again (c : Cache) (now : Nat) (q : Query) (h : expired c now = true) :
+    (cacheGet c now q).2.1 = true ∧ (cacheGet c now q).2.2 = (cacheGet {} now q).2.2 := by
+  have h0 : expired ({} : Cache) now = true := by simp [expired]
+  simp only [cacheGet, h, h0, if_true]
+  cases resolveTtl now q with
+  | none => simp
+  | some p => simp
+
+theorem expired_mono (c : Cache) (now now' : Nat) (h : expired c now = true) (hle : now ≤ now') : expired c now' = true := by
+  simp only [expired, Bool.or_eq_true, beq_iff_eq, decide_eq_true_eq] at h ⊢
+  rcases h with h | h
+  · exact Or.inl h
+  · exact Or.inr (Nat.le_trans h hle)
+
+/-- **A resolver error is not remembered**: the cache is left untouched, so the next attempt — whenever it comes — asks again. -/
+theorem resolver_error_not_cached (c : Cache) (now : Nat) (q : Query) (h : expired c now = true) (he : resolveTtl now q = none)
+    (now' : Nat) (hle : now ≤ now') :
+    (cacheGet c now q).1 = c ∧ (cacheGet c now q).2.2 = .dnsError ∧ expired (cacheGet c now q).1 now' = true := by
+  have e : (cacheGet c now q).1 = c := by simp [cacheGet, h, he]
+  refine ⟨e, by simp [cacheGet, h, he], ?_⟩
+  rw [e]; exact expired_mono c now now' h hle
+
+/-- **"No usable records" is not remembered either** (neither MX nor A, or an empty answer): the entry stays expired for ever. -/
+theorem negative_answer_not_cached (c : Cache) (now : Nat) (q : Query) (h : expired c now = true)
+    (hn : resolveTtl now q = some (none, 0)) (now' : Nat) :
+    (cacheGet c now q).2.2 = .nothing ∧ expired (cacheGet c now q).1 now' = true := by
+  have e : cacheGet c now q = (⟨none, 0⟩, true, .nothing) := by
+    simp only [cacheGet, h, if_true, hn]
+  rw [e]; simp [expired]
+
+/-- **An answer is kept exactly until its time to live is over**: after a successful lookup the entry is fresh strictly before the
+    expiration the lookup computed and expired from then on. -/
+theorem kept_until_ttl (c : Cache) (now : Nat) (q : Query) (h : expired c now = true) (recs) (e : Nat)
+    (hr : resolveTtl now q = some (recs, e)) (he : e ≠ 0) (now' : Nat) :
+    expired (cacheGet c now q).1 now' = decide (e ≤ now') := by
+  have hc : (cacheGet c now q).1 = ⟨recs, e⟩ := by simp [cacheGet, h, hr]
+  rw [hc]
+  simp [expired, he]
+
+/-- Error classes with the cache in between: a resolver error is a transient failure, no usable record a permanent one. -/
+theorem routeCached_classes (c : Cache) (now : Nat) (q : Query) (n : Nat) :
+    ((cacheGet c now q).2.2 = .dnsError → (routeCached c now q n).2.2 = .transient) ∧
+    ((cacheGet c now q).2.2 = .nothing → (routeCached c now q n).2.2 = .permanent) := by
+  constructor <;> intro h <;> simp [routeCached, h]
+
+/-- non-vacuity: an answer with a time to live of 60 is served from the cache at 59 and asked for again at 60 -/
+example : ((cacheGet (cacheGet {} 1000 ⟨.records [(10, 1, 60)], .noData⟩).1 1059 ⟨.error, .error⟩).2,
+           (cacheGet (cacheGet {} 1000 ⟨.records [(10, 1, 60)], .noData⟩).1 1060 ⟨.error, .error⟩).2)
+    = ((false, .hosts [(10, 1)]), (true, .dnsError)) := by decide
+
+end mxcache
+
 end Slimta.C11
